@@ -158,8 +158,13 @@ def rule_flow(ctx, rep, rid='R1'):
             pay = dict(v[3])['0']
             want = ty_class(sty)
             if CLASS[variant] != want:
-                rep.bad(rid, inst, b.where(), '%s values are sent as MetricValue::%s: sign/float class changes (negative or large values are corrupted)' % (sty, variant))
-                continue
+                # an integer type whose whole range fits the other integer variant renders identically (u32 as Signed)
+                src_ty = sty.replace('alloc::vec::Vec<', '').replace('>', '')
+                tgt = {'i': INT_RANGE['i64'], 'u': INT_RANGE['u64']}.get(CLASS[variant])
+                fits = src_ty in INT_RANGE and tgt is not None and INT_RANGE[src_ty][0] >= tgt[0] and INT_RANGE[src_ty][1] <= tgt[1]
+                if not fits:
+                    rep.bad(rid, inst, b.where(), '%s values are sent as MetricValue::%s: sign/float class changes (negative or large values are corrupted)' % (sty, variant))
+                    continue
             is_vec = sty.startswith('alloc::vec::Vec<')
             if is_vec != variant.startswith('Packed'):
                 rep.bad(rid, inst, b.where(), 'list/scalar mismatch: %s -> %s' % (sty, variant))
